@@ -20,7 +20,7 @@ RULE = ('cases = PELs with UD / ED / SRC sections over creators x components x s
         'plugins on and off; m2c00 requests over subtypes 72/73/84/other x versions 1/2/other x payloads; non-trivial = a parser module '
         'is consulted; distinct by (environment, bytes)')
 UD_FIX = {'x1111': ('echo',), 'x2222': ('raises', 'boom'), 'x3333': ('none',), 'x8888': ('import_raises', 'load failure'), 'x0100': ('echo',), 'o0a00': ('echo',), 'y0a00': ('none',), 'y0001': ('echo',), 'o1234': ('echo',)}
-SRC_FIX = {'xsrc': ('echo',), 'ysrc': ('raises',), 'zsrc': ('text', 'null'), 'wsrc': ('text', ''), 'o8d00': ('echo',), 'oab00': ('raises',), 'bsrc': ('echo',)}
+SRC_FIX = {'xsrc': ('echo',), 'ysrc': ('raises',), 'zsrc': ('text', 'null'), 'wsrc': ('text', ''), 'o8d00': ('echo',), 'oab00': ('raises_import',), 'bsrc': ('echo',), 'vsrc': ('raises_import',)}
 CO_FIX = {'x': ('table', {'PROC0001': ['line one', 'line "two"'], 'PROC0002': []}), 'y': ('raises',)}
 
 
